@@ -20,14 +20,7 @@ impl ForeignKeyBuilder for SqliteQueryBuilder {
 
         write!(sql, "DROP FOREIGN KEY ").unwrap();
         if let Some(name) = &drop.foreign_key.name {
-            write!(
-                sql,
-                "{}{}{}",
-                self.quote().left(),
-                name,
-                self.quote().right()
-            )
-            .unwrap();
+            Alias::new(name).prepare(sql.as_writer(), self.quote());
         }
     }
 
